@@ -573,7 +573,21 @@ def aes_extra_rules(ctx, facts, rep):
     asg = [(f, bi, si, s) for (f, bi, si, s) in __import__("engine.query", fromlist=["field_assignments"]).field_assignments(facts, "compression_method", r"ZipFileData$") if f.path == pf.path]
     good = bool(asg) and any(x[0] == "call" and x[1].endswith("from_u16") for x in walk(norm(ex.rvalue(asg[0][3]["rv"], (asg[0][1], asg[0][2])))))
     ok &= rep.check(good, rule, "real-method", where(pf, pf.span), "compression_method := from_u16(method stored in the AE-x field)", "the AE-x inner method no longer replaces the marker method")
-    rep.floor(rule, 10)
+    # ... and both are applied INSIDE the 0x9901 arm, as soon as the field has been read: the walk may end early on a later, damaged
+    # or short field (an error the caller tolerates), and what was already parsed must stick
+    aes_arm = set()
+    for bi_, t_, d_ in sw:
+        if spec["header_id"] in {v for v, _ in t_["targets"]}:
+            aes_arm |= switch_arms(pf, bi_).get(spec["header_id"], set())
+    fa = __import__("engine.query", fromlist=["field_assignments"]).field_assignments
+    late = []
+    for fld in ("aes_mode", "compression_method"):
+        for (f_, b_, si_, s_) in fa(facts, fld, r"ZipFileData$"):
+            if f_.path == pf.path and b_ not in aes_arm:
+                late.append("%s (%s)" % (fld, where(pf, s_["span"])))
+    ok &= rep.check(bool(aes_arm) and not late, rule, "applied-in-arm", where(pf, pf.span), "aes_mode and the real method are stored inside the AE-x arm",
+                    "AE-x parameters are stored outside the 0x9901 arm: %s -- they are lost when the extra-field walk ends early" % late[:2])
+    rep.floor(rule, 11)
     return ok
 
 
